@@ -31,7 +31,7 @@ namespace sim {
 		// simplified network model where the two paths of a connection are set up
 		// independently, and we can set up the nat hop only on the outgoing path
 		p.from.address(m_external_addr);
-		if (p.channel) {
+		if (p.channel && p.type == aux::packet::type_t::syn) {
 			p.channel->visible_ep[0].address(m_external_addr);
 		}
 		forward_packet(std::move(p));
